@@ -338,6 +338,9 @@ func checkSugarPair(c *run.Ctx, id string, e *ref.E, env *bridge.Env, user []*re
 		if a.Skipped != "" || b.Skipped != "" || a.Res.Class == bridge.OLimit || b.Res.Class == bridge.OLimit {
 			continue
 		}
+		if clockDependent(sug) {
+			continue // strtotime of a form relative to the current time
+		}
 		if a.Res.Class != b.Res.Class || (a.Res.Class == bridge.OValue && a.Ill == nil && b.Ill == nil && !ref.Same(a.RV, b.RV)) || !sameTrace(a.Res.Obs.Trace, b.Res.Obs.Trace) {
 			c.Violation("sugar-meaning", fmt.Sprintf("%s: sugared %s gives %s [%s]; the explicit calls give %s [%s]", name, src, a.describe(), traceStr(a.Res.Obs.Trace), b.describe(), traceStr(b.Res.Obs.Trace)),
 				map[string]interface{}{"sugared": sug.witness(), "explicit": exp.witness()})
